@@ -37,6 +37,16 @@ func H_C18() {
 	nNext := []int{0, 1, 2, 9}[vx.Choice("nNext", 3+vx.Param("MANY", 0))] // MANY=1: also a wide merge entry (9 predecessors)
 	nRefs := []int{0, 1, 2, 9}[vx.Choice("nRefs", 3+vx.Param("MANY", 0))]
 	next, refs := cids(10, nNext), cids(20, nRefs)
+	switch vx.Choice("linkShape", 3) {
+	case 1: // the lists overlap (Append never builds such an entry; CreateEntryWithIO accepts it)
+		vx.Assume(nNext > 0 && nRefs > 0)
+		refs[0] = next[0]
+		vx.Cover("overlapping-lists")
+	case 2: // the same link twice in one list
+		vx.Assume(nRefs > 1)
+		refs[nRefs-1] = refs[0]
+		vx.Cover("duplicate-link")
+	}
 	var copts *iface.CreateEntryOptions
 	switch vx.Choice("createOpts", 3) {
 	case 1:
@@ -92,7 +102,11 @@ func H_C18() {
 		if err != nil {
 			return
 		}
-		vx.Assert("C18", sameCids(d.GetNext(), next) && sameCids(d.GetRefs(), refs), "a reader with the same key recovers identical predecessor and reference lists")
+		// (identical to the lists of the entry as created: creation removes repeated links from a list)
+		vx.Assert("C18", sameCids(d.GetNext(), e.GetNext()) && sameCids(d.GetRefs(), e.GetRefs()), "a reader with the same key recovers identical predecessor and reference lists")
+		if len(e.GetRefs()) == len(refs) && len(e.GetNext()) == len(next) {
+			vx.Assert("C18", sameCids(e.GetNext(), next) && sameCids(e.GetRefs(), refs), "the created entry carries the given lists")
+		}
 		if copts != nil && copts.PreSigned {
 			vx.Cover("pre-signed-block") // written without its signature by design: nothing to verify or merge
 			return
